@@ -18,9 +18,17 @@ stdin : {"docs": [DOC, ...]}
          | {"c": "powder", "dim": "tof" | "dspacing", "name": str | null, "coord": [hex], "coord_var": [hex] | null,
             "data": [hex], "data_var": [hex] | null, "unit": str, "comment": str}
          | {"c": "calib", "powers": [int], "coeffs": [hex], "var": [hex] | null, "comment": str}
+  DOC (fork)       = {"kind": "fork", "name": str, "comment": str, "ops": [OP]}   several builders derived from common
+                     ancestors; node 0 is CIF(name, comment=comment), every derive/copy op creates the next node
+    OP   = {"op": "derive", "parent": node, "call": CALL} | {"op": "copy", "parent": node}
+         | {"op": "save", "node": node, "via": "save" | "save_cif" | "override", "comment": str}
+         | {"op": "drop", "node": node} | {"op": "set_name", "node": node, "name": str}
+         | {"op": "set_comment", "node": node, "comment": str}
+    observation: {"saves": [{"text": str} | {"error": ...}]}, one entry per save op
 stdout: RESULT {"docs": [{"text": str} | {"error": class name, "msg": str, "extra": {...}}],
                 "version": str, "core": [3 str], "pd": [3 str], "spallation": [str], "unit_str": {unit: str}}
 """
+import gc
 import io
 import json
 import sys
@@ -116,44 +124,48 @@ SOURCES = [
 ]
 
 
+def apply_call(c, call):
+    """one `with_*` combinator of the high-level builder; returns the NEW builder"""
+    k = call['c']
+    if k == 'authors':
+        ps = [metadata.Person(name=p['name'], email=p.get('email') or None, address=p.get('address') or None,
+                              orcid_id=p.get('orcid') or None, role=p.get('role'),
+                              corresponding=bool(p.get('corresponding')))
+              for p in call['persons']]
+        return c.with_authors(*ps)
+    if k == 'reducers':
+        return c.with_reducers(*call['list'])
+    if k == 'beamline':
+        src = None
+        if call.get('source') is not None:
+            st, pr = SOURCES[call['source']]
+            src = metadata.Source(name=None, source_type=st, probe=pr)
+        return c.with_beamline(metadata.Beamline(name=call['name'], facility=call.get('facility')), src,
+                               comment=call.get('comment', ''))
+    if k == 'powder':
+        dim = call['dim']
+        unit = 'us' if dim == 'tof' else 'angstrom'
+        coord = sc.array(dims=[dim], values=[fl(h) for h in call['coord']], unit=unit,
+                         variances=[fl(h) for h in call['coord_var']] if call.get('coord_var') else None,
+                         dtype='float64')
+        data = sc.array(dims=[dim], values=[fl(h) for h in call['data']], unit=call.get('unit', 'one'),
+                        variances=[fl(h) for h in call['data_var']] if call.get('data_var') else None,
+                        dtype='float64')
+        da = sc.DataArray(data, coords={dim: coord}, name=call.get('name') or '')
+        return c.with_reduced_powder_data(da, comment=call.get('comment', ''))
+    if k == 'calib':
+        data = sc.array(dims=['cal'], values=[fl(h) for h in call['coeffs']],
+                        variances=[fl(h) for h in call['var']] if call.get('var') else None, dtype='float64')
+        da = sc.DataArray(data, coords={'power': sc.array(dims=['cal'], values=[int(p) for p in call['powers']],
+                                                          dtype='int64', unit=None)})
+        return c.with_powder_calibration(da, comment=call.get('comment', ''))
+    raise ValueError(k)
+
+
 def run_builder(doc):
     c = cif.CIF(doc['name'], comment=doc.get('comment', ''))
     for call in doc['calls']:
-        k = call['c']
-        if k == 'authors':
-            ps = [metadata.Person(name=p['name'], email=p.get('email') or None, address=p.get('address') or None,
-                                  orcid_id=p.get('orcid') or None, role=p.get('role'),
-                                  corresponding=bool(p.get('corresponding')))
-                  for p in call['persons']]
-            c = c.with_authors(*ps)
-        elif k == 'reducers':
-            c = c.with_reducers(*call['list'])
-        elif k == 'beamline':
-            src = None
-            if call.get('source') is not None:
-                st, pr = SOURCES[call['source']]
-                src = metadata.Source(name=None, source_type=st, probe=pr)
-            c = c.with_beamline(metadata.Beamline(name=call['name'], facility=call.get('facility')), src,
-                                comment=call.get('comment', ''))
-        elif k == 'powder':
-            dim = call['dim']
-            unit = 'us' if dim == 'tof' else 'angstrom'
-            coord = sc.array(dims=[dim], values=[fl(h) for h in call['coord']], unit=unit,
-                             variances=[fl(h) for h in call['coord_var']] if call.get('coord_var') else None,
-                             dtype='float64')
-            data = sc.array(dims=[dim], values=[fl(h) for h in call['data']], unit=call.get('unit', 'one'),
-                            variances=[fl(h) for h in call['data_var']] if call.get('data_var') else None,
-                            dtype='float64')
-            da = sc.DataArray(data, coords={dim: coord}, name=call.get('name') or '')
-            c = c.with_reduced_powder_data(da, comment=call.get('comment', ''))
-        elif k == 'calib':
-            data = sc.array(dims=['cal'], values=[fl(h) for h in call['coeffs']],
-                            variances=[fl(h) for h in call['var']] if call.get('var') else None, dtype='float64')
-            da = sc.DataArray(data, coords={'power': sc.array(dims=['cal'], values=[int(p) for p in call['powers']],
-                                                              dtype='int64', unit=None)})
-            c = c.with_powder_calibration(da, comment=call.get('comment', ''))
-        else:
-            raise ValueError(k)
+        c = apply_call(c, call)
     text = None
     for _ in range(int(doc.get('saves', 1))):
         f = io.StringIO()
@@ -165,11 +177,71 @@ def run_builder(doc):
     return text
 
 
+def run_fork(doc):
+    """a HISTORY over several builders derived from common ancestors (node 0 = cif.CIF(name, comment=comment));
+    every `derive`/`copy` creates the next node from an existing one, `save` writes one node, `drop` releases the
+    reference to a node, `set_name`/`set_comment` use the public setters of one node.  Returns one observation per
+    `save` op, in order."""
+    nodes = [cif.CIF(doc['name'], comment=doc.get('comment', ''))]
+    failed = {}                       # node -> observation of the exception that prevented its construction
+    saves = []
+    for op in doc['ops']:
+        o = op['op']
+        if o in ('derive', 'copy'):
+            p = op['parent']
+            if p in failed:
+                failed[len(nodes)] = failed[p]
+                nodes.append(None)
+                continue
+            try:
+                nodes.append(nodes[p].copy() if o == 'copy' else apply_call(nodes[p], op['call']))
+            except Exception as ex:
+                failed[len(nodes)] = {'error': type(ex).__name__, 'msg': str(ex)[:300]}
+                nodes.append(None)
+        elif o == 'drop':
+            nodes[op['node']] = None
+            gc.collect()
+        elif o in ('set_name', 'set_comment'):
+            n = op['node']
+            if n in failed:
+                continue
+            try:
+                if o == 'set_name':
+                    nodes[n].name = op['name']
+                else:
+                    nodes[n].comment = op['comment']
+            except Exception as ex:
+                failed[n] = {'error': type(ex).__name__, 'msg': str(ex)[:300]}
+        elif o == 'save':
+            n = op['node']
+            if n in failed:
+                saves.append(failed[n])
+                continue
+            try:
+                f = io.StringIO()
+                via = op.get('via', 'save')
+                if via == 'save':
+                    nodes[n].save(f)
+                elif via == 'save_cif':
+                    cif.save_cif(f, nodes[n])
+                else:
+                    cif.save_cif(f, nodes[n], comment=op.get('comment', ''))
+                saves.append({'text': f.getvalue()})
+            except Exception as ex:
+                saves.append({'error': type(ex).__name__, 'msg': str(ex)[:300]})
+        else:
+            raise ValueError(o)
+    return saves
+
+
 def main():
     payload = json.load(sys.stdin)
     out = []
     for doc in payload['docs']:
         try:
+            if doc['kind'] == 'fork':
+                out.append({'saves': run_fork(doc)})
+                continue
             text = run_low(doc) if doc['kind'] == 'low' else run_builder(doc)
             out.append({'text': text})
         except Exception as ex:  # the class is part of the observation
